@@ -186,10 +186,6 @@ func (k Keeper) SetCollectorLookupTable(ctx sdk.Context, records types.Collector
 	if records.CollectorAssetId == records.SecondaryAssetId {
 		return types.ErrorDuplicateAssetDenoms
 	}
-	_, found := k.asset.GetMintGenesisTokenData(ctx, records.AppId, records.SecondaryAssetId)
-	if !found {
-		return types.ErrorAssetNotAddedForGenesisMinting
-	}
 	appDenom, found := k.GetAppToDenomsMapping(ctx, records.AppId)
 	if found {
 		// check if assetdenom already exists
